@@ -83,9 +83,89 @@ func timed[T any](e *Env, what string, fn func() (T, error)) (T, error) {
 	case <-time.After(120 * time.Second):
 		var zero T
 		e.Hung = true
-		e.Violate("hang", "call="+strings.SplitN(what, "(", 2)[0]+" "+hangSig(), "%s did not return within 120s of virtual time (all deadlines are <= 10s); blocked goroutines:\n%s", what, blockedStacks())
+		e.Violate("hang", "call="+strings.SplitN(what, "(", 2)[0]+" "+hangSig()+e.hangContext(), "%s did not return within 120s of virtual time (all deadlines are <= 10s); blocked goroutines:\n%s", what, blockedStacks())
 		return zero, ErrHang
 	}
+}
+
+// hangContext names what could have cut the hung call short (the known teardown deadlock F12 needs an
+// early Close: result limit reached, deadline, cancellation or an error).
+func (e *Env) hangContext() string {
+	sc := e.Sc
+	var tags []string
+	if sc.Knob("lo_limit", 0) > 0 && sc.Knob("streamed", 0) == 0 {
+		tags = append(tags, "result_limit")
+	}
+	if sc.Knob("lo_deadline_us", 0) > 0 {
+		tags = append(tags, "short_deadline")
+	}
+	if len(e.DS.Fired()) > 0 {
+		tags = append(tags, "fault_fired")
+	}
+	model := ""
+	if RepeatsOperand(sc.Model) {
+		// F29: the pipeline never terminates on `x or (y from z) or (y from z)` inside a recursive relation
+		model = " model_repeats_an_operand_in_a_union"
+	}
+	if len(tags) == 0 {
+		return " trigger=none" + model
+	}
+	return " trigger=" + strings.Join(tags, "+") + model
+}
+
+// RepeatsOperand reports whether some relation's rewrite contains a union or intersection that,
+// once nested operators of the same kind are flattened, lists the same operand twice.
+func RepeatsOperand(m *rm.Model) bool {
+	var key func(rw *rm.Rewrite) string
+	key = func(rw *rm.Rewrite) string {
+		s := fmt.Sprintf("%d:%s:%s(", rw.Kind, rw.Relation, rw.Tupleset)
+		for _, c := range rw.Children {
+			s += key(c) + ","
+		}
+		return s + ")"
+	}
+	var flat func(kind rm.RewriteKind, rw *rm.Rewrite, out *[]*rm.Rewrite)
+	flat = func(kind rm.RewriteKind, rw *rm.Rewrite, out *[]*rm.Rewrite) {
+		for _, c := range rw.Children {
+			if c.Kind == kind {
+				flat(kind, c, out)
+			} else {
+				*out = append(*out, c)
+			}
+		}
+	}
+	var walk func(rw *rm.Rewrite) bool
+	walk = func(rw *rm.Rewrite) bool {
+		if rw == nil {
+			return false
+		}
+		if rw.Kind == rm.Union || rw.Kind == rm.Intersection {
+			var ops []*rm.Rewrite
+			flat(rw.Kind, rw, &ops)
+			seen := map[string]bool{}
+			for _, o := range ops {
+				k := key(o)
+				if seen[k] {
+					return true
+				}
+				seen[k] = true
+			}
+		}
+		for _, c := range rw.Children {
+			if walk(c) {
+				return true
+			}
+		}
+		return false
+	}
+	for _, t := range m.Types {
+		for _, r := range t.Relations {
+			if walk(r.Rewrite) {
+				return true
+			}
+		}
+	}
+	return false
 }
 
 // hangSig summarises where the stuck goroutines are parked (function names only).
